@@ -297,3 +297,7 @@ V("C20", "tile-fits-drops-hdu", "toasty/__init__.py", "coll = collection.load(fi
 V("C20", "cli-drops-hdu", "toasty/cli.py", "collection = SimpleFitsCollection(settings.paths, hdu_index=settings.hdu_index, wcs_key=settings.wcs_key)", "collection = SimpleFitsCollection(settings.paths, wcs_key=settings.wcs_key)", "C20.R4")
 V("C20", "paths-sorted", COLL, "        self._paths = list(paths)", "        self._paths = sorted(paths)", "C20.R4")
 V("C20", "P-scalar-first", COLL, "                if isinstance(self._hdu_index, int):\n                    hdu_index = self._hdu_index\n                    hdu = hdul[self._hdu_index]", "                if isinstance(self._hdu_index, int):\n                    hdu_index = self._hdu_index\n                    hdu = hdul[hdu_index]", "HOLDS")
+
+# C03 (worker vs serial processing)
+V("C03", "worker-args-swapped", TRANS, "        do_one(buf, pos, pio_in, pio_out)\n\n\n# float-to-RGB", "        do_one(buf, pos, pio_out, pio_in)\n\n\n# float-to-RGB", "C03.R2")
+V("C03", "worker-callback-args", PYR, "        callback(*args)\n", "        callback(args[0], None)\n", "C03.R2")
